@@ -761,3 +761,85 @@ Proof.
   - apply G.
   - apply G.
 Qed.
+
+(* ================================================================== Poisson at the boundary rate = 0 *)
+(* Poisson.validate accepts rate = 0 (the point mass at 0).  There log(rate) = -inf, which the real-number reading
+   cannot express; poisson_logpmf_ext / poisson_pmf_ext carry that infinity explicitly (None = -inf). *)
+Theorem poisson_ext_agrees : forall k rate, rate <> 0 ->
+  poisson_logpmf_ext RN k rate = Some (poisson_logpmf RN k rate) /\
+  poisson_pmf_ext RN k rate = poisson_pmf RN k rate.
+Proof.
+  intros k rate Hr. unfold poisson_pmf_ext, poisson_logpmf_ext, poisson_pmf. rn_simpl.
+  destruct (Reqb'_spec rate 0) as [E | E]; [contradiction|]. cbn [andb]. split; reflexivity.
+Qed.
+
+Lemma is_series_zero : is_series (fun _ : nat => 0) 0.
+Proof.
+  pose proof (is_series_scal_l 0 _ _ (poisson_pmf_sums_to_one 1 Rlt_0_1)) as H.
+  match type of H with is_series _ ?l => replace l with (0 : R) in H end.
+  - eapply is_series_ext; [|exact H]. intros n. cbv beta. rsimp. ring.
+  - rsimp. ring.
+Qed.
+
+Lemma is_series_single0 : forall a : nat -> R, (forall k, a (S k) = 0) -> is_series a (a 0%nat).
+Proof.
+  intros a Ha. apply is_series_decr_1.
+  match goal with |- is_series _ ?l => replace l with (0 : R) end.
+  - eapply is_series_ext; [|exact is_series_zero]. intros n. cbv beta. symmetry. apply Ha.
+  - rsimp. ring.
+Qed.
+
+Lemma poisson_pmf_ext_zero : forall k, poisson_pmf_ext RN k 0 = if Nat.eqb k 0 then 1 else 0.
+Proof.
+  intros k. unfold poisson_pmf_ext, poisson_logpmf_ext. rn_simpl.
+  destruct (Reqb'_spec 0 0) as [_ | E]; [|contradiction]. destruct k as [|k]; cbn [Nat.eqb negb andb]; [|reflexivity].
+  unfold poisson_logpmf, lgamma1, xlogy. rn_simpl. cbn [Z.of_nat factZ].
+  destruct (Reqb'_spec 0 0) as [_ | E]; [|contradiction].
+  rewrite ln_1. replace (0 - 0 - 0) with 0 by ring. apply exp_0.
+Qed.
+
+Lemma gammaincc_nat_zero : forall n, gammaincc_nat RN (S n) 0 = 1.
+Proof.
+  intros n. unfold gammaincc_nat. rn_simpl. rewrite Ropp_0, exp_0, Rmult_1_l.
+  change (seq 0 (S n)) with (0%nat :: seq 1 n). cbn [map tsum pown factZ]. rn_simpl.
+  assert (Z : forall m s, tsum RN (map (fun j => pown RN 0 j / IZR (factZ j)) (seq (S s) m)) = 0).
+  { induction m as [|m IH]; intros s; [reflexivity|]. cbn [seq map tsum pown]. rn_simpl. rewrite IH.
+    unfold Rdiv. rewrite !Rmult_0_l. apply Rplus_0_r. }
+  rewrite (Z n 0%nat). change (IZR 1) with 1. field.
+Qed.
+
+Theorem poisson_rate_zero_point_mass :
+  (forall k, poisson_pmf_ext RN k 0 = if Nat.eqb k 0 then 1 else 0) /\
+  (forall k, poisson_logpmf_ext RN k 0 = None <-> k <> 0%nat) /\
+  (forall s, 0 <= s -> poisson_cdf RN s 0 = 1 /\ poisson_logcdf RN s 0 = 0 /\
+                       poisson_cdf RN s 0 = sum_n (fun j => poisson_pmf_ext RN j 0) (Z.to_nat (Zfloor s))) /\
+  is_series (fun k => poisson_pmf_ext RN k 0) 1 /\
+  is_series (fun k => INR k * poisson_pmf_ext RN k 0) (poisson_mean RN 0) /\
+  is_series (fun k => (INR k - poisson_mean RN 0) ^ 2 * poisson_pmf_ext RN k 0) (poisson_variance RN 0).
+Proof.
+  split; [exact poisson_pmf_ext_zero|]. split; [|split; [|split; [|split]]].
+  - intros k. unfold poisson_logpmf_ext. rn_simpl. destruct (Reqb'_spec 0 0) as [_ | E]; [|contradiction].
+    destruct k as [|k]; cbn [Nat.eqb negb andb]; split; intros H; try discriminate; try reflexivity; congruence.
+  - intros s Hs.
+    assert (Hf : (0 <= Zfloor s)%Z) by (apply Zfloor_lub; assumption).
+    assert (Ea : Zfloor (s + 1) = (Zfloor s + 1)%Z).
+    { apply Zfloor_imp. rewrite !plus_IZR. pose proof (Zfloor_lb s). pose proof (Zfloor_ub s). lra. }
+    assert (C1 : poisson_cdf RN s 0 = 1).
+    { unfold poisson_cdf. rn_simpl. rewrite Ea, Z2Nat.inj_add by lia. change (Z.to_nat 1) with 1%nat.
+      rewrite Nat.add_1_r. apply gammaincc_nat_zero. }
+    split; [exact C1|]. split.
+    + unfold poisson_logcdf. rn_simpl. rewrite C1. apply ln_1.
+    + rewrite C1. generalize (Z.to_nat (Zfloor s)). intros n. induction n as [|n IH].
+      * rewrite sum_O, poisson_pmf_ext_zero. reflexivity.
+      * rewrite sum_Sn, <- IH, poisson_pmf_ext_zero. rsimp. cbn [Nat.eqb]. ring.
+  - pose proof (is_series_single0 (fun k => poisson_pmf_ext RN k 0)) as H. cbv beta in H.
+    rewrite (poisson_pmf_ext_zero 0) in H. cbn [Nat.eqb] in H. apply H. intros k. apply poisson_pmf_ext_zero.
+  - unfold poisson_mean.
+    pose proof (is_series_single0 (fun k => INR k * poisson_pmf_ext RN k 0)) as H. cbv beta in H.
+    replace (INR 0 * poisson_pmf_ext RN 0 0) with 0 in H by (cbn [INR]; ring). apply H.
+    intros k. rewrite poisson_pmf_ext_zero. cbn [Nat.eqb]. ring.
+  - unfold poisson_mean, poisson_variance.
+    pose proof (is_series_single0 (fun k => (INR k - 0) ^ 2 * poisson_pmf_ext RN k 0)) as H. cbv beta in H.
+    replace ((INR 0 - 0) ^ 2 * poisson_pmf_ext RN 0 0) with 0 in H by (cbn [INR]; ring). apply H.
+    intros k. rewrite poisson_pmf_ext_zero. cbn [Nat.eqb]. ring.
+Qed.
